@@ -236,7 +236,7 @@ class ExprCanon(ast.NodeTransformer):
 
 
 _LIB_METHOD_NAMES = {"get", "append", "extend", "add", "update", "pop", "items", "keys", "values", "join", "split", "format", "copy", "index", "count", "insert", "remove",
-                     "replace", "strip", "lstrip", "rstrip", "startswith", "endswith", "lower", "upper", "read_text", "write_text", "exists", "mkdir", "glob", "visit", "generic_visit",
+                     "replace", "strip", "lstrip", "rstrip", "startswith", "endswith", "lower", "upper", "read_text", "write_text", "exists", "mkdir", "glob", "generic_visit",
                      "parse", "dump", "dumps", "loads", "load", "post", "json", "send", "recv", "close", "encode", "decode", "setdefault", "sort", "union", "difference"}
 
 
@@ -258,6 +258,8 @@ def sig_from_table(table: Dict[str, list]):
             if not is_attr:
                 return None  # a method called by bare name: not this function
             pos = pos[1:]
+        elif is_attr and not method:
+            return None  # `x.f(..)` where f is a plain function of the repository: some other object's method
         return pos
     return lookup
 
